@@ -212,7 +212,7 @@ def run(ctx):
     # E1: the property predicates as invariants of the composite (spec/MC_Rapid.tla)
     mcrapid.check(ctx, ['StreamOwnerIsReserver', 'OkHasBody'])
     # forced schedules through the pause points of /repo (-tags verif)
-    sc.run_families(ctx, forced.scenarios('c02', ('stale-error-in-flight', 'stale-response-in-flight', 'stale-error-slow-body')), "forced-schedule")
+    sc.run_families(ctx, forced.scenarios('c02', ('stale-error-in-flight', 'stale-response-in-flight', 'stale-error-slow-body', 'stale-response-slow-big')), "forced-schedule")
     ctx.assumptions += sc.ASSUME
     sc.run_families(ctx, scenarios(ctx), "stale")
     sc.run_families(ctx, late_scenarios(ctx), "late")
